@@ -146,7 +146,7 @@ void write_stats()
     json j;
     j["evaluations"] = s.evaluations;
     j["distinct_nontrivial"] = s.nontrivial.size() + s.bulk_nontrivial;
-    j["excluded_by_known_findings"] = s.excluded;
+    j["excluded_not_compared"] = s.excluded;
     j["labels"] = s.labels;
     j["per_inst"] = s.per_inst;
     j["per_inst_nontrivial"] = s.per_inst_nontrivial;
